@@ -143,6 +143,8 @@ def build_algo(recipe):
 def build_algo_option(cls_name, spec):
     _, ocls = ALGO_CLASSES[cls_name]
     kw = dict(on_algo_eq_constraint=spec["eq"], on_algo_ineq_constraint=spec["ineq"], max_iteration_optimization=spec["max_iteration"], mode_proj_order=spec["proj_order"], eps=spec["eps"])
+    if spec.get("max_iteration_proj") is not None:
+        kw["max_iteration_proj_physical"] = spec["max_iteration_proj"]
     if cls_name == "pgdb":
         kw.update(mode_stopping_criterion_gradient_descent=spec.get("stopping", "single_difference_loss"), num_history_stopping_criterion_gradient_descent=spec.get("num_history", 1))
     return ocls(**kw)
